@@ -40,6 +40,8 @@ pub struct Ev<'a, 'e> {
     pub exprs: Vec<&'e E>,
     /// some evaluated sub-expression lies outside the pinned semantics (even if its value was discarded)
     pub tainted: bool,
+    /// how often an undefined combination was offered to the host (`defer_op`)
+    pub defers: u64,
 }
 
 fn num(v: &V) -> Option<N> {
@@ -211,7 +213,7 @@ fn int_index(container: &V, idx: &V) -> V {
 
 impl<'a, 'e> Ev<'a, 'e> {
     pub fn new(host: &'a mut Host, max_steps: u64) -> Self {
-        Ev { host, steps: 0, max_steps, exprs: vec![], tainted: false }
+        Ev { host, steps: 0, max_steps, exprs: vec![], tainted: false, defers: 0 }
     }
 
     fn tick(&mut self) -> Result<(), Stop> {
@@ -252,6 +254,7 @@ impl<'a, 'e> Ev<'a, 'e> {
     }
 
     fn defer(&mut self) -> V {
+        self.defers += 1;
         // undefined combination: offered to the host, which declines in every program-level check
         V::Unit
     }
